@@ -1,4 +1,5 @@
 import Verif.Proofs.Peephole
+import Verif.Proofs.LangVM
 /-!
 # C34 — The bytecode VM is observationally equivalent to the interpreter; peephole optimisation
 does not change outcomes
@@ -49,6 +50,42 @@ theorem peephole_jumps_land (pats : List Pattern) (hnj : noJumpInPatterns pats =
           opt.drop (retarget (shiftsOf 0 segs) x).target =
             b.flatMap (Seg.outPatched (retarget (shiftsOf 0 segs))) :=
   Verif.Proofs.Peephole.peephole_jumps_land pats hnj code opt h
+
+/-! ## VM simulation (model compiler `Verif.Model.Lang.VM.compileExpr`, machine `VM.step`)
+
+Full statement (DESIGN §6 C34, not proved): for every program `p` of layers L0–L2,
+`runVM (compile p) = run p` (value, error kind, trace), i.e. for all fuel `n` with
+`run p n ≠ outOfFuel` there is `m` with `runVM (compile p) m = run p n`.
+
+Proved (`simulation_expr_partial`): the value case for call-free expressions of L0 — literals,
+variables, unary and strict binary operators (operand order!), `&&`, `||` (short-circuit jumps),
+the conditional operator, force-unwrap.  Missing: the error case (the machine stops with the same error
+kind); `??` (the model VM, like the real VM, returns a non-boxed non-nil left value while the
+interpreter evaluates the right operand — known finding `conditional-result-not-boxed` — so the
+statement needs the typing invariant "the left operand is nil or boxed"); invocations (several
+activations), statements (assignment, if, while with break/continue, return), and layers L1/L2.  These
+parts of the model compiler and machine are exercised only by the stream `vmeq` (model VM vs real VM
+vs interpreter on every generated L0 program). -/
+
+open Verif.Model.Lang Verif.Model.Lang.VM in
+/-- **simulation_expr_partial**: if the evaluator yields the value `v` for a call-free L0 expression
+`e` in state `s`, then the code compiled for `e` under any scope that agrees with `s`, placed
+anywhere (`pre ++ c ++ post`), runs on the machine from its first instruction to just behind its last
+one, by steps that neither log nor fail, and leaves exactly `v` pushed on the operand stack. -/
+theorem simulation_expr_partial (p : Program) (tbl : Table) (n : Nat) (e : Expr) (s : State) (v : Value)
+    (hnc : noCall e = true) (h : (eval p n e s).out = .ok v)
+    (sc : Scope) (c : List Instr) (hc : compileExpr sc e = some c)
+    (locals : Locals) (hag : Agree sc s.env locals)
+    (pre post : List Instr) (stk : List Value) :
+    Reach tbl (pre ++ c ++ post) locals (pre.length, stk) (pre.length + c.length, v :: stk) ∧
+    (eval p n e s).st = s ∧ (eval p n e s).tr = [] :=
+  ⟨sim_expr_ok p tbl n e s v hnc h sc c hc locals hag _ pre post stk rfl, eval_noCall_pure p n e s hnc⟩
+
+open Verif.Model.Lang Verif.Model.Lang.VM in
+-- non-vacuity: `(7 - 2) < 4 && !false` is call-free, compiles, and evaluates to `false`
+example : noCall (.and (.binary .lt (.binary .sub (.intLit .int 7) (.intLit .int 2)) (.intLit .int 4)) (.unary .not (.boolLit false))) = true ∧
+    (compileExpr [] (.and (.binary .lt (.binary .sub (.intLit .int 7) (.intLit .int 2)) (.intLit .int 4)) (.unary .not (.boolLit false)))).isSome = true := by
+  decide
 
 -- non-vacuity: a jump over two rewritten windows, a window at a jump target left alone
 example : optimize exCode = .ok exOpt := by rfl
